@@ -69,7 +69,7 @@ public:
         const auto n = m_samples;
 
         const auto score = make_score(criterion, rss, k, n);
-        if (std::isfinite(score) && score < m_score)
+        if (std::isfinite(score) && (score < m_score || (score == m_score && feature < m_feature)))
         {
             m_score   = score;
             m_hashes  = hashes;
@@ -107,7 +107,7 @@ public:
             const auto n = m_samples;
 
             const auto score = make_score(criterion, rss, k, n);
-            if (std::isfinite(score) && score < m_score)
+            if (std::isfinite(score) && (score < m_score || (score == m_score && feature < m_feature)))
             {
                 m_score       = score;
                 m_feature     = feature;
@@ -161,7 +161,7 @@ public:
             const auto n = m_samples;
 
             const auto score = make_score(criterion, rss, k, n);
-            if (std::isfinite(score) && score < m_score)
+            if (std::isfinite(score) && (score < m_score || (score == m_score && feature < m_feature)))
             {
                 m_score       = score;
                 m_hashes      = hashes;
